@@ -343,7 +343,7 @@ static bool EvalChecksig(ScriptExecutionEnvironment& env, const valtype& sig, co
     }
     if (sigversion == SigVersion::TAPROOT) {
         // btcdeb converts taproot spends into actual scripts, but in reality these are checked earlier
-        success = checker.CheckSchnorrSignature(sig, pubkey, SigVersion::TAPROOT, execdata);
+        success = checker.CheckSchnorrSignature(sig, pubkey, SigVersion::TAPROOT, execdata, serror); // (serror: the reason of a failure, not whatever an earlier command left there)
         return success;
     }
     switch (sigversion) {
